@@ -141,6 +141,46 @@ Theorem C02_checker_flood_rest : forall c orc tb1 tb2 now f,
   frame_is_tcp f = false -> fst (rx c orc tb1 now f) = fst (rx c orc tb2 now f).
 Proof. exact rx_non_tcp_table_indep. Qed.
 
+
+(* ---- the state table: StateTable.Add / Get / Remove as operations on the slot array,
+   for every table size, every content and every time ---- *)
+
+(* Add never indexes outside the array; the slot it hands out holds the new connection,
+   all other slots are untouched, and what it overwrote was nil, TIME-WAIT or idle > 30 s *)
+Theorem C02_table_add_slot_in_range_only_dead_evicted : forall cap t now k i t',
+  table_add cap t now k = Some (i, t') -> zlen t <= cap ->
+  0 <= Z.of_nat i < cap /\ zlen t' <= cap /\ nth_error t' i = Some (Some k) /\
+  (forall j, j <> i -> nth j t' None = nth j t None) /\ dead now (nth i t None).
+Proof. exact table_add_spec. Qed.
+
+Theorem C02_table_add_refuses_exactly_when_full_of_live : forall cap t now k,
+  table_add cap t now k = None <->
+  cap <= zlen t /\
+  Forall (fun s => exists k0, s = Some k0 /\ k_state k0 <> S_TIMEWAIT /\ now - k_t k0 <= 30000) t.
+Proof. exact table_add_none_spec. Qed.
+
+Theorem C02_table_get_is_first_match : forall t sip dip sp dp i0 j k,
+  table_get t i0 sip dip sp dp = Some (j, k) ->
+  (i0 <= j)%nat /\ nth_error t (j - i0) = Some (Some k) /\ tcb_match k sip dip sp dp = true /\
+  forall m, (m < j - i0)%nat ->
+    match nth_error t m with Some (Some k') => tcb_match k' sip dip sp dp = false | _ => True end.
+Proof. exact table_get_some. Qed.
+
+Theorem C02_table_get_none_exactly_when_no_match : forall t sip dip sp dp i0,
+  table_get t i0 sip dip sp dp = None <->
+  Forall (fun s => match s with Some k' => tcb_match k' sip dip sp dp = false | None => True end) t.
+Proof. exact table_get_none. Qed.
+
+(* every history of Add / Fill / Get / Remove / state changes keeps the table inside the array *)
+Theorem C02_table_ops_stay_within_array : forall cap ops t,
+  zlen t <= cap -> zlen (snd (top_run cap t ops)) <= cap.
+Proof. exact top_run_len. Qed.
+
+(* the checker's linear evaluation of "fill n slots" is the n Adds *)
+Theorem C02_checker_fill_is_n_adds : forall cap ops t,
+  top_run_fast cap t ops = top_run cap t ops.
+Proof. exact top_run_fast_eq. Qed.
+
 (* ---- non-vacuity; the former witnesses are dropped now ---- *)
 
 Definition PEER := 167772165.       (* 10.0.0.5 *)
@@ -205,6 +245,17 @@ Proof.
     match goal with H : lone_kind (skipn _ _) |- _ => cbn in H; inversion H end.
 Qed.
 
+
+(* a two-slot table: fill, refuse, TIME-WAIT reuse, expiry reuse, removal *)
+Example C02_table_ops_nonvacuous :
+  let e := mkES PEER 1000 LOCALHOST 80 S_SYNRCVD false in
+  let x := mkES PEER 2000 LOCALHOST 80 S_SYNRCVD true in
+  fst (top_run 2 [] [(0, OFill 3 e); (1, OAdd e); (2, OSetState 1 S_TIMEWAIT); (3, OAdd x);
+                     (4, OAdd e); (5, OGet PEER LOCALHOST 1000 80); (6, ORemove 0); (7, OCount);
+                     (8, OGet LOCALHOST PEER 80 1000)]) =
+  [[2; 0; 1]; [0; -1]; [1]; [1; 1]; [1; 1]; [0]; [1]; [1]; [1]].
+Proof. vm_compute. reflexivity. Qed.
+
 Print Assumptions C02_eth_parse_total.
 Print Assumptions C02_ipv4_parse_never_panics.
 Print Assumptions C02_ipv4_accepts_exactly_consistent_lengths.
@@ -229,3 +280,9 @@ Print Assumptions C02_flood_closed_form.
 Print Assumptions C02_flood_beyond_capacity_survived.
 Print Assumptions C02_checker_flood_head.
 Print Assumptions C02_checker_flood_rest.
+Print Assumptions C02_table_add_slot_in_range_only_dead_evicted.
+Print Assumptions C02_table_add_refuses_exactly_when_full_of_live.
+Print Assumptions C02_table_get_is_first_match.
+Print Assumptions C02_table_get_none_exactly_when_no_match.
+Print Assumptions C02_table_ops_stay_within_array.
+Print Assumptions C02_checker_fill_is_n_adds.
